@@ -1,33 +1,27 @@
-"""Per-property target table: executors, sources compiled from the repository, budgets."""
-import glob, os
+"""Per-property target table, assembled from engine/targets.d/Cxx.py (each defines TARGET and META)."""
+import glob, os, importlib.util
 
 REPO = os.environ.get("VERIF_REPO", "/repo")
+HERE = os.path.dirname(os.path.abspath(__file__))
 
-def _lib(d, exclude=()):
-    return sorted(os.path.relpath(p, REPO) for p in glob.glob(os.path.join(REPO, "lib", d, "*.c"))
-                  if os.path.basename(p) not in exclude)
+def lib(d, exclude=(), only=None):
+    """relative paths of lib/<d>/*.c in the repository"""
+    r = sorted(os.path.relpath(p, REPO) for p in glob.glob(os.path.join(REPO, "lib", d, "*.c"))
+               if os.path.basename(p) not in exclude)
+    if only is not None:
+        r = [p for p in r if os.path.basename(p) in only]
+    return r
 
-LIBUPIPE = _lib("upipe")
+LIBUPIPE = lib("upipe")
 MEMFIX = ["engine/umem_count.c"]
 
 TARGETS = {}
-
-TARGETS["C18"] = dict(
-    rule=("tape-decoded sequence of (width 1-32, value) fields, buffer size around the exact need, "
-          "read back by ubits_get and by the block bit-stream reader over a generated segmentation and start bit offset; "
-          "non-trivial = >=2 fields incl. a 32-bit field or one straddling the 32-bit cache, written into a buffer that is exactly full or too small; "
-          "distinct by hash of (fields, buffer size, segmentation, bit offset)"),
-    assumptions=["independent MSB-first reference packer in the harness", "ASan red zones around exact-size buffers"],
-    execs=[dict(name="bits", harness="harness/C18_bits.c", repo=LIBUPIPE, engine=MEMFIX)],
-    quick=dict(cases=30000, budget=40), thorough=dict(cases=600000, budget=400),
-)
-
-TARGETS["C03"] = dict(
-    rule=("tape-decoded history (<=50 ops) over <=6 block handles: alloc/alloc_from_opaque/dup/splice/split/append/insert/delete/truncate/resize/prepend/copy/merge/write/free "
-          "with boundary-biased offsets and sizes (negative, -1, segment boundary +-1, out of range) under a generated manager configuration; after each op a tape-chosen "
-          "first access (read/extract/peek/size_linear/scan/find/compare/equal/match) then every handle compared with its byte-vector model through size, extract, read loop, iovec and peek; "
-          "non-trivial = a multi-segment handle whose accessor crossed a segment boundary, or an error path taken, or an access right after a cache-moving op; distinct by hash of ops+arguments"),
-    assumptions=["byte-vector reference model in the harness", "documented argument domains derived from include/upipe/ubuf_block.h comments", "ASan + exact-size umem areas"],
-    execs=[dict(name="blockstr", harness="harness/C03_blockstr.c", repo=LIBUPIPE, engine=MEMFIX)],
-    quick=dict(cases=8000, budget=45), thorough=dict(cases=200000, budget=600),
-)
+META = {}
+for _p in sorted(glob.glob(os.path.join(HERE, "targets.d", "C*.py"))):
+    _pid = os.path.basename(_p)[:-3]
+    _spec = importlib.util.spec_from_file_location("targets_d_" + _pid, _p)
+    _m = importlib.util.module_from_spec(_spec)
+    _m.lib, _m.LIBUPIPE, _m.MEMFIX, _m.REPO = lib, LIBUPIPE, MEMFIX, REPO
+    _spec.loader.exec_module(_m)
+    TARGETS[_pid] = _m.TARGET
+    META[_pid] = _m.META
